@@ -40,8 +40,13 @@ impl<'a, T> Park<'a, T> {
 impl<T> Drop for Park<'_, T> {
     fn drop(&mut self) {
         // wait the kernel finish
-        while self.wait_kernel.load(Ordering::Relaxed) {
-            yield_now();
+        if self.wait_kernel.load(Ordering::Relaxed) {
+            // a drop must not be a cancellation point: a Cancel panic out of `yield_now`
+            // would unwind this frame while the kernel side still uses the park
+            let _g = (!std::thread::panicking()).then(crate::cancel::CancelDisableGuard::new);
+            while self.wait_kernel.load(Ordering::Relaxed) {
+                yield_now();
+            }
         }
     }
 }
